@@ -1365,7 +1365,7 @@ Qed.
 (* ======================================================================== *)
 (* Part F : steps, traces, the fresh tree                                    *)
 (* stated preconditions of the primitives covered so far; the others are not covered (False) *)
-Definition prim_pre (p : prim) (s : tstate) : Prop :=
+Definition prim_pre0 (p : prim) (s : tstate) : Prop :=
   match p with
   | PAddNode nd => good_node nd
   | PRemoveNode nd => length nd = 1 \/ (In nd (nkeys (children s)) /\ nget nd (info s) <> None)
@@ -1376,9 +1376,9 @@ Definition prim_pre (p : prim) (s : tstate) : Prop :=
   | _ => False
   end.
 
-Theorem step_preserves_InvC p s : InvC s -> prim_pre p s -> InvC (step n p s).
+Theorem step_preserves_InvC0 p s : InvC s -> prim_pre0 p s -> InvC (step n p s).
 Proof.
-  intros HI Hp. destruct p as [nd|nd|x y lg c z|g nd| | | | | | | | | | |k]; cbn [prim_pre] in Hp; try contradiction; cbn [step].
+  intros HI Hp. destruct p as [nd|nd|x y lg c z|g nd| | | | | | | | | | |k]; cbn [prim_pre0] in Hp; try contradiction; cbn [step].
   - apply add_node_inv; assumption.
   - destruct Hp as [E1|[Hin Hk]]; [apply remove_node_leaf_inv|apply remove_node_internal_inv]; assumption.
   - apply contract_pair_inv; assumption.
@@ -1401,8 +1401,8 @@ Proof.
   - destruct (memb k (cores s)); [exact HI|]. apply (InvC_same s); [unfold same_cost_fields; repeat split; reflexivity|exact HI].
 Qed.
 
-Theorem run_preserves_InvC tr : forall s, InvC s -> pre_trace n prim_pre tr s -> InvC (run n tr s).
-Proof. intros s HI Hp. apply (run_good n InvC prim_pre step_preserves_InvC tr s HI Hp). Qed.
+Theorem run_preserves_InvC0 tr : forall s, InvC s -> pre_trace n prim_pre0 tr s -> InvC (run n tr s).
+Proof. intros s HI Hp. apply (run_good n InvC prim_pre0 step_preserves_InvC0 tr s HI Hp). Qed.
 
 (* ContractionTree.__init__ *)
 Lemma multiplicity_nil : multiplicity n [] = 1%Z.
@@ -1445,9 +1445,9 @@ Proof.
     split; [|discriminate]. split; [repeat constructor; cbn; tauto|]. intros k [<-|[]]. lia.
 Qed.
 
-(* totals_eq_rebuild, partial: over traces of the primitives covered by prim_pre *)
-Theorem trace_from_fresh_InvC tr : pre_trace n prim_pre tr (init_state n) -> InvC (run n tr (init_state n)).
-Proof. apply run_preserves_InvC, init_state_InvC. Qed.
+(* totals_eq_rebuild, partial: over traces of the primitives covered by prim_pre0 *)
+Theorem trace_from_fresh_InvC0 tr : pre_trace n prim_pre0 tr (init_state n) -> InvC (run n tr (init_state n)).
+Proof. apply run_preserves_InvC0, init_state_InvC. Qed.
 
 (* ======================================================================== *)
 (* Part G : the set-level figures ARE the from-scratch figures of Model/Net.v  *)
@@ -1493,5 +1493,177 @@ Proof.
     destruct Hc as [_ Hc]. destruct (Hc nd l r Hch) as (Gl & Gr & _).
     apply union2_inv_ok; apply sub_legs_slegs_ok; assumption.
 Qed.
+
+(* ======================================================================== *)
+(* Part H : contract_stats                                                   *)
+Definition sumf (K : list node) (s : tstate) : Prop :=
+  flops_ s = zsum (map (cflops s) K) /\ forall p, In p K -> rd i_flops s p <> None.
+Definition sumw (K : list node) (s : tstate) : Prop :=
+  write_ s = zsum (map (csize s) K) /\ forall p, In p K -> rd i_size s p <> None.
+Definition sums (K : list node) (s : tstate) : Prop :=
+  mc_ok (sizes_mc s) /\ (forall z, cget0 z (sizes_ s) = count_occ Z.eq_dec (map (csize s) K) z) /\
+  forall p, In p K -> rd i_size s p <> None.
+Definition raw3 K s := sumf K s /\ sumw K s /\ sums K s.
+
+(* the three raw sums survive any cache fill that leaves their own accumulator alone *)
+Lemma raw3_ExtI K s s' : ExtI s s' -> flops_ s' = flops_ s -> write_ s' = write_ s ->
+  sizes_ s' = sizes_ s -> sizes_max s' = sizes_max s -> raw3 K s -> raw3 K s'.
+Proof.
+  intros (_&_&_&_&_&_&_&Msz&Mfl) E1 E2 E3 E4 ((Fa & Fb) & (Wa & Wb) & (Sa & Sb & Sc)).
+  assert (Rf : forall p, In p K -> rd i_flops s' p = rd i_flops s p).
+  { intros p Hp. specialize (Fb p Hp). destruct (rd i_flops s p) as [z|] eqn:Ez; [|congruence]. apply Mfl, Ez. }
+  assert (Rs : forall p, In p K -> rd i_size s' p = rd i_size s p).
+  { intros p Hp. specialize (Wb p Hp). destruct (rd i_size s p) as [z|] eqn:Ez; [|congruence]. apply Msz, Ez. }
+  assert (Ecf : map (cflops s') K = map (cflops s) K) by (apply map_ext_in; intros p Hp; unfold cflops; rewrite Rf by exact Hp; reflexivity).
+  assert (Ecs : map (csize s') K = map (csize s) K) by (apply map_ext_in; intros p Hp; unfold csize; rewrite Rs by exact Hp; reflexivity).
+  unfold raw3, sumf, sumw, sums, sizes_mc. rewrite E1, E2, E3, E4, Ecf, Ecs.
+  split; [split; [exact Fa|intros p Hp; rewrite Rf by exact Hp; apply Fb, Hp]|].
+  split; [split; [exact Wa|intros p Hp; rewrite Rs by exact Hp; apply Wb, Hp]|].
+  split; [exact Sa|]. split; [exact Sb|intros p Hp; rewrite Rs by exact Hp; apply Sc, Hp].
+Qed.
+
+Lemma stats_step K p s : InvS s -> good_node p -> nget p (children s) <> None -> nget p (info s) <> None ->
+  raw3 K s ->
+  let s' :=
+    (let '(s1, fl) := g_flops n s p in
+     let s2 := set_flops (flops_ s1 + fl)%Z s1 in
+     let '(s3, sz) := g_size n s2 p in
+     let s4 := set_write (write_ s3 + sz)%Z s3 in
+     set_sizes (mc_add sz (sizes_mc s4)) s4) in
+  InvS s' /\ ExtI s s' /\ raw3 (K ++ [p]) s'.
+Proof.
+  intros HS HG Hch Hk HR. cbn zeta.
+  destruct (g_flops_inv s p HS HG) as (A1 & B1 & C1); [right; left; exact Hch|]. specialize (C1 Hk).
+  destruct (g_flops n s p) as [s1 fl]. cbn [fst snd] in *.
+  set (s2 := set_flops (flops_ s1 + fl)%Z s1).
+  assert (HS2 : InvS s2) by (apply (InvS_struct s1); [unfold same_struct; repeat split; reflexivity|exact A1]).
+  assert (Hk2 : nget p (info s2) <> None).
+  { apply nget_in_keys. destruct B1 as (_&_&_&_&_&_&_&_&_&_&_&Ek&_). change (info s2) with (info s1). unfold nkeys in *. rewrite Ek. apply nget_in_keys, Hk. }
+  destruct (g_size_inv s2 p HS2 HG) as [(A3 & B3 & _ & C3)|C3]; [|congruence].
+  destruct (g_size n s2 p) as [s3 sz]. cbn [fst snd] in *.
+  assert (E12 : ExtI s s2) by (apply (ExtI_trans _ s1); [apply Ext_ExtI, B1|unfold ExtI; repeat split; auto]).
+  assert (E13 : ExtI s s3) by (apply (ExtI_trans _ s2); [exact E12|apply Ext_ExtI, B3]).
+  (* raw sums in s1 (all accumulators untouched), then follow the three updates *)
+  assert (B1' := B1). destruct B1' as (_&_&_&_&_&_&F7&F8&F9&F10&_).
+  assert (R1 : raw3 K s1) by (apply (raw3_ExtI K s s1); [apply Ext_ExtI, B1|assumption..]).
+  assert (B3' := B3). destruct B3' as (_&_&_&_&_&_&G7&G8&G9&G10&_). cbn in G7, G8, G9, G10.
+  assert (Cf3 : rd i_flops s3 p = Some fl).
+  { destruct B3 as (_&_&_&_&_&_&_&_&_&_&_&_&_&Mf). apply Mf. exact C1. }
+  split; [apply (InvS_struct s3); [unfold same_struct; repeat split; reflexivity|exact A3]|].
+  split; [apply (ExtI_trans _ s3); [exact E13|unfold ExtI; repeat split; auto]|].
+  destruct R1 as ((Fa & Fb) & (Wa & Wb) & (Sa & Sb & Sc)).
+  assert (M13f : forall q z, rd i_flops s1 q = Some z -> rd i_flops s3 q = Some z) by (intros q z Hq; apply B3; exact Hq).
+  assert (M13s : forall q z, rd i_size s1 q = Some z -> rd i_size s3 q = Some z) by (intros q z Hq; apply B3; exact Hq).
+  assert (Rf : forall q, In q K -> rd i_flops s3 q = rd i_flops s1 q).
+  { intros q Hq. specialize (Fb q Hq). destruct (rd i_flops s1 q) as [z|] eqn:Ez; [|congruence]. apply M13f, Ez. }
+  assert (Rs : forall q, In q K -> rd i_size s3 q = rd i_size s1 q).
+  { intros q Hq. specialize (Wb q Hq). destruct (rd i_size s1 q) as [z|] eqn:Ez; [|congruence]. apply M13s, Ez. }
+  assert (Ecf : map (cflops s3) K = map (cflops s1) K) by (apply map_ext_in; intros q Hq; unfold cflops; rewrite Rf by exact Hq; reflexivity).
+  assert (Ecs : map (csize s3) K = map (csize s1) K) by (apply map_ext_in; intros q Hq; unfold csize; rewrite Rs by exact Hq; reflexivity).
+  assert (Ep_f : cflops s3 p = fl) by (unfold cflops; rewrite Cf3; reflexivity).
+  assert (Ep_s : csize s3 p = sz) by (unfold csize; rewrite C3; reflexivity).
+  set (sF := set_sizes _ _).
+  change (raw3 (K ++ [p]) sF). unfold raw3, sumf, sumw, sums.
+  change (cflops sF) with (cflops s3). change (csize sF) with (csize s3).
+  change (rd i_flops sF) with (rd i_flops s3). change (rd i_size sF) with (rd i_size s3).
+  change (flops_ sF) with (flops_ s3). change (write_ sF) with (write_ s3 + sz)%Z.
+  change (sizes_mc sF) with (mc_add sz (sizes_mc s3)). change (sizes_ sF) with (fst (mc_add sz (sizes_mc s3))).
+  rewrite !map_app, Ecf, Ecs. cbn [map]. rewrite Ep_f, Ep_s.
+  assert (Hpres_f : forall q, In q (K ++ [p]) -> rd i_flops s3 q <> None).
+  { intros q Hq. apply in_app_iff in Hq. destruct Hq as [Hq|[<-|[]]]; [rewrite Rf by exact Hq; apply Fb, Hq|rewrite Cf3; discriminate]. }
+  assert (Hpres_s : forall q, In q (K ++ [p]) -> rd i_size s3 q <> None).
+  { intros q Hq. apply in_app_iff in Hq. destruct Hq as [Hq|[<-|[]]]; [rewrite Rs by exact Hq; apply Wb, Hq|rewrite C3; discriminate]. }
+  assert (Emc : sizes_mc s3 = sizes_mc s1) by (unfold sizes_mc; cbn in G9, G10; congruence).
+  split; [split; [|exact Hpres_f]|split; [split; [|exact Hpres_s]|split; [|split; [|exact Hpres_s]]]].
+  - rewrite zsum_app, zsum_cons. change (zsum []) with 0%Z. rewrite G7. cbn. rewrite Fa. lia.
+  - rewrite zsum_app, zsum_cons. change (zsum []) with 0%Z. rewrite G8. cbn. rewrite Wa. lia.
+  - rewrite Emc. apply mc_add_ok, Sa.
+  - intros z. rewrite mc_add_count, Emc. cbn [fst sizes_mc]. rewrite Sb, count_occ_snoc. reflexivity.
+Qed.
+
+Lemma child_key_good s p : InvS s -> In p (nkeys (children s)) -> good_node p.
+Proof.
+  intros ((_&Hc)&_) Hin. apply nget_in_keys in Hin. destruct (nget p (children s)) as [[l r]|] eqn:E; [|congruence].
+  destruct (Hc p l r E) as (Gl & _ & HR & HP). split; [apply (perm_inrange _ _ HP HR)|].
+  intros ->. apply Permutation_nil in HP. destruct Gl as [_ Hl]. destruct l; [congruence|discriminate].
+Qed.
+Lemma zsum_perm l1 l2 : Permutation l1 l2 -> zsum l1 = zsum l2.
+Proof. induction 1; rewrite ?zsum_cons; try lia; congruence. Qed.
+
+Lemma stats_body_inv nodes : forall K s, InvS s ->
+  (forall plr, In plr nodes -> In (fst plr) (nkeys (children s)) /\ nget (fst plr) (info s) <> None) ->
+  raw3 K s ->
+  InvS (stats_body n s nodes) /\ ExtI s (stats_body n s nodes) /\ raw3 (K ++ map fst nodes) (stats_body n s nodes).
+Proof.
+  unfold stats_body. induction nodes as [|plr nodes IH]; intros K s HS Hn HR; cbn [fold_left map].
+  - rewrite app_nil_r. split; [exact HS|]. split; [unfold ExtI; repeat split; auto|exact HR].
+  - destruct (Hn plr (or_introl eq_refl)) as [Hin Hk].
+    pose proof (child_key_good s _ HS Hin) as HG.
+    assert (Hch : nget (fst plr) (children s) <> None) by (apply nget_in_keys, Hin).
+    destruct (stats_step K (fst plr) s HS HG Hch Hk HR) as (A & B & C). cbn zeta in A, B, C.
+    set (s' := let '(s1, fl) := g_flops n s (fst plr) in _) in *.
+    destruct (IH (K ++ [fst plr]) s' A) as (A' & B' & C').
+    + intros q Hq. destruct (Hn q (or_intror Hq)) as [Hqi Hqk]. destruct B as (Ech&_&_&_&_&_&Ek&_).
+      rewrite Ech. split; [exact Hqi|]. apply nget_in_keys. unfold nkeys in *. rewrite Ek. apply nget_in_keys, Hqk.
+    + exact C.
+    + split; [exact A'|]. split; [eapply ExtI_trans; eassumption|]. rewrite <- app_assoc in C'. exact C'.
+Qed.
+
+(* contract_stats recomputes (force, or something untracked) only on a tree whose dfs traversal
+   enumerates the keys of `children` (a complete tree) and whose internal nodes all have info *)
+Definition stats_pre (force : bool) (s : tstate) : Prop :=
+  force || negb (trk_flops s && trk_write s && trk_size s) = true ->
+  exists nodes, traverse n s = Some nodes /\ Permutation (map fst nodes) (nkeys (children s)) /\
+                forall p, In p (nkeys (children s)) -> nget p (info s) <> None.
+
+Theorem contract_stats_inv force s : InvC s -> stats_pre force s -> InvC (contract_stats n force s).
+Proof.
+  intros [HS HT] Hpre. unfold contract_stats.
+  destruct (force || negb (trk_flops s && trk_write s && trk_size s)) eqn:Ec; [|split; assumption].
+  destruct (Hpre Ec) as (nodes & Htr & HP & Hinfo).
+  set (s0 := set_sizes mc_empty (set_write 0%Z (set_flops 0%Z s))).
+  change (traverse n s0) with (traverse n s). rewrite Htr.
+  assert (HS0 : InvS s0) by (apply (InvS_struct s); [unfold same_struct; repeat split; reflexivity|exact HS]).
+  assert (HR0 : raw3 [] s0).
+  { unfold raw3, sumf, sumw, sums. split; [split; [reflexivity|intros q []]|]. split; [split; [reflexivity|intros q []]|].
+    split; [exact mc_ok_empty|]. split; [intros z; reflexivity|intros q []]. }
+  destruct (stats_body_inv nodes [] s0 HS0) as (A & B & C); [|exact HR0|].
+  { intros plr Hp. assert (Hk : In (fst plr) (nkeys (children s))) by (apply (Permutation_in _ HP), in_map, Hp).
+    split; [exact Hk|apply Hinfo, Hk]. }
+  cbn [app] in C. set (sB := stats_body n s0 nodes) in *.
+  split; [apply (InvS_struct sB); [unfold same_struct; repeat split; reflexivity|exact A]|].
+  apply totals_split. change (children (set_trk true true true sB)) with (children sB).
+  assert (Ech : children sB = children s) by apply B. rewrite Ech.
+  destruct C as ((Fa & Fb) & (Wa & Wb) & (Sa & Sb & Sc)).
+  assert (PK : forall q, In q (nkeys (children s)) -> In q (map fst nodes)).
+  { intros q Hq. apply (Permutation_in _ (Permutation_sym HP)), Hq. }
+  split; [|split]; intros _.
+  - split; [|intros q Hq; apply Fb, PK, Hq].
+    change (flops_ sB = zsum (map (cflops sB) (nkeys (children s)))). rewrite Fa.
+    apply zsum_perm, Permutation_map, HP.
+  - split; [|intros q Hq; apply Wb, PK, Hq].
+    change (write_ sB = zsum (map (csize sB) (nkeys (children s)))). rewrite Wa.
+    apply zsum_perm, Permutation_map, HP.
+  - split; [exact Sa|]. split; [|intros q Hq; apply Sc, PK, Hq].
+    intros z. change (cget0 z (sizes_ sB) = count_occ Z.eq_dec (map (csize sB) (nkeys (children s))) z).
+    rewrite Sb. apply Permutation_count_occ, Permutation_map, HP.
+Qed.
+
+(* ======================================================================== *)
+(* Part I : the covered alphabet, final form                                 *)
+Definition prim_pre (p : prim) (s : tstate) : Prop :=
+  match p with
+  | PStats f => stats_pre f s
+  | _ => prim_pre0 p s
+  end.
+Theorem step_preserves_InvC p s : InvC s -> prim_pre p s -> InvC (step n p s).
+Proof.
+  intros HI Hp. destruct p; try (apply step_preserves_InvC0; assumption).
+  cbn [step]. apply contract_stats_inv; assumption.
+Qed.
+Theorem run_preserves_InvC tr : forall s, InvC s -> pre_trace n prim_pre tr s -> InvC (run n tr s).
+Proof. intros s HI Hp. apply (run_good n InvC prim_pre step_preserves_InvC tr s HI Hp). Qed.
+Theorem trace_from_fresh_InvC tr : pre_trace n prim_pre tr (init_state n) -> InvC (run n tr (init_state n)).
+Proof. apply run_preserves_InvC, init_state_InvC. Qed.
 
 End Inv.
